@@ -50,6 +50,7 @@ type c10Op struct {
 	Live      bool    `json:"live,omitempty"`     // Sum: on one of the scenario's two long-lived hash values (A selects it) instead of a fresh one
 	Reset     bool    `json:"reset,omitempty"`    // Sum on a long-lived hash value: Reset first
 	Scribble  bool    `json:"scribble,omitempty"` // the caller overwrites a result the library allocated for it (it owns it) before carrying on
+	AadBehind bool    `json:"aad_behind,omitempty"` // Seal into a fresh dst: one record holds header | room for the result | additional data, and cap(dst) reaches over all of it
 	Cold      bool    `json:"cold,omitempty"`     // Seal/Open/Block: the call is made on an OS thread that never ran library code (seam S7)
 }
 
@@ -109,9 +110,9 @@ func (c10) Meta() core.Meta {
 		Components: map[string]string{"sm4 Seal/Open (amd64 assembly: sealAsm/openAsm, ensureCapacity)": "real", "crypto/cipher generic GCM over portable sm4 (path switch off)": "real",
 			"sm3 Sum": "real", "sm4 Encrypt/Decrypt": "real", "sm2 Verify/ZA/DerivePublic/Sign": "real", "allocator (dst layout, aliasing)": "stub (simulated placement)", "arm64 assembly": "not run",
 			"oracle": "the library's own dst=nil twin on private copies, executed before the perturbed call"},
-		Assumptions: []string{"inexact overlap of dst and input is outside the AEAD contract and never generated", "bytes of dst[len:cap] beyond the result are not judged", "pointer identity of the result is not required",
+		Assumptions: []string{"inexact overlap of dst and input is outside the AEAD contract and never generated", "bytes of dst[len:cap] beyond the result are not judged unless an input of the same call lies there (additional data right behind the result)", "pointer identity of the result is not required",
 			"for the in-place idiom the overlapped input is exempt from the unchanged-input invariant", "on Open failure only the error and the inputs are judged here (no-plaintext is C07)"},
-		FaultKinds: []string{"dst=nil", "dst=len0/cap=len", "dst=len>0/cap=len", "dst=*/spare<needed", "dst=*/spare==needed", "dst=*/spare>needed", "dst=inplace/cap>=needed", "dst=inplace/cap<needed", "repeat", "open-corrupted", "open-wrong-aad", "block-inplace", "thread:cold-call", "sum-on-long-lived-hash", "result-adopted", "result-overwritten-by-owner"},
+		FaultKinds: []string{"dst=nil", "dst=len0/cap=len", "dst=len>0/cap=len", "dst=*/spare<needed", "dst=*/spare==needed", "dst=*/spare>needed", "dst=inplace/cap>=needed", "dst=inplace/cap<needed", "repeat", "open-corrupted", "open-wrong-aad", "block-inplace", "thread:cold-call", "sum-on-long-lived-hash", "result-adopted", "result-overwritten-by-owner", "aad-behind-result-in-cap(dst)"},
 		ProbeNames: []string{"reused-spare-capacity", "reallocated", "open-twice", "empty-plaintext", "tail-1..15", "pool-buffer-shared>=2"},
 		StepUnit:   "library calls",
 	}
@@ -178,6 +179,7 @@ func (c10) Generate(idx int, r *core.Rand, tier string) core.Script {
 	}
 	var seals []int
 	th := r.Split("thread")
+	lay := r.Split("layout")
 	for i := 0; i < nops; i++ {
 		op := c10Op{A: w.Intn(len(s.AEADs)), M: w.Intn(len(s.Msgs)), D: w.Intn(len(s.AADs))}
 		tag := s.AEADs[op.A].TagSize
@@ -219,6 +221,7 @@ func (c10) Generate(idx int, r *core.Rand, tier string) core.Script {
 			op.NonceSeed = w.Uint64()
 			op.Dst = genDst(w, s.Msgs[op.M].Len+tag, true)
 			op.Repeat = w.Chance(1, 5)
+			op.AadBehind = op.Dst.Mode == "fresh" && lay.Chance(1, 4)
 			seals = append(seals, i)
 		}
 		if op.Kind == "Seal" || op.Kind == "Open" || op.Kind == "Block" {
@@ -258,14 +261,15 @@ func newPool() *pool {
 }
 
 // put registers a caller buffer. The buffer is re-homed into memory with some spare
-// capacity behind it (0, 32, 64 or 100 bytes, chosen from its name) filled with a
+// capacity behind it (0, 32, 64, 100, 160, 300 or 1100 bytes, chosen from its name: enough for
+// an append of several fields or of a whole block of padding to stay inside it) filled with a
 // canary: the bytes between len and cap are the caller's memory too (the next field of
 // a packet, say) and an operation must not write there either.
 func (p *pool) put(name, role string, b []byte) []byte {
 	if _, ok := p.bufs[name]; !ok {
 		p.names = append(p.names, name)
 	}
-	extra := []int{0, 32, 64, 100}[core.Hash64(name)%4]
+	extra := []int{0, 32, 64, 100, 0, 160, 300, 1100}[core.Hash64(name)%8]
 	nb := slackBuf(len(b), len(b)+extra)
 	copy(nb, b)
 	full := nb[:cap(nb)]
@@ -442,7 +446,7 @@ func (c10) Execute(sc core.Script, keep bool) *core.Result {
 				break
 			}
 			do := func(tagName string) []byte {
-				var out, prefix, dst, scratch []byte
+				var out, prefix, dst, scratch, aadIn []byte
 				exempt := ""
 				p, txt, _, _ := catchOn(op.Cold, func() {
 					if strings.HasPrefix(op.Dst.Mode, "inplace") {
@@ -450,12 +454,27 @@ func (c10) Execute(sc core.Script, keep bool) *core.Result {
 						scratch, d0, in0 = inplaceBuf(op.Dst, pt)
 						prefix = append([]byte{}, d0...)
 						out = a.Seal(d0, nonce, in0, aad)
+					} else if op.AadBehind && op.Dst.Mode == "fresh" {
+						// one record: header | room for ciphertext and tag | additional data. Appending to
+						// dst (the header) may write the result and nothing else: the bytes right behind
+						// it are an input of the same call
+						rec := mkDst(dstSpec{Mode: "fresh", Len: op.Dst.Len, Spare: needed + len(aad)})
+						dst = rec
+						prefix = append([]byte{}, dst...)
+						aadIn = rec[:cap(rec)][len(rec)+needed:]
+						copy(aadIn, aad)
+						res.Faults["aad-behind-result-in-cap(dst)"]++
+						out = a.Seal(dst, nonce, pt, aadIn)
 					} else {
 						dst = mkDst(op.Dst)
 						prefix = append([]byte{}, dst...)
 						out = a.Seal(dst, nonce, pt, aad)
 					}
 				})
+				if aadIn != nil && !p && !bytes.Equal(aadIn, aad) {
+					report("input-modified", "Seal", "aad", param+"/aad-behind-result", fmt.Sprintf("additional data lying right behind the result inside cap(dst) changed: %x -> %x (tag size %d)", aad, aadIn, sp.TagSize))
+					return nil
+				}
 				log.Add("op%d Seal%s %s a=%d pt=%d aad=%d panic=%v out=%s", i, tagName, dc, op.A, len(pt), len(aad), p, core.Hex8(out))
 				if p {
 					report("panic", "Seal", "dst", param, fmt.Sprintf("Seal with %s (len(dst)=%d cap=%d, needed=%d) panicked: %s", dc, len(dst), cap(dst), needed, txt))
